@@ -15,9 +15,9 @@ func (w *zzStreamWriter) WriteStream(b []byte, stream uint) (int, error) {
 	w.streams = append(w.streams, stream)
 	return w.zzRecWriter.Write(b)
 }
-func (w *zzStreamWriter) CurrentWriterStream() uint  { return 0 }
-func (w *zzStreamWriter) ResetWriterStream()         {}
-func (w *zzStreamWriter) SetWriterStream(uint) uint  { return 0 }
+func (w *zzStreamWriter) CurrentWriterStream() uint { return 0 }
+func (w *zzStreamWriter) ResetWriterStream()        {}
+func (w *zzStreamWriter) SetWriterStream(uint) uint { return 0 }
 
 // zzC16_answer: request header fully symbolic (all 2^64 id pairs, zero included; every flag byte; any
 // command / application), result code symbolic, inbound stream symbolic.
@@ -52,6 +52,7 @@ func zzC16_answer() {
 	}
 	b, err := a.Serialize()
 	vAssert(err == nil && int(h.MessageLength) == len(b), "answer length bookkeeping")
+	vObserveBytes("answer", b)
 	vAssert(a.MessageStream() == req.MessageStream(), "answer remembers the stream the request arrived on")
 	// written to the transport stream the request arrived on
 	w := &zzStreamWriter{}
